@@ -1,5 +1,5 @@
-"""Language-level checks (family "lang"): C03 linearity, C50 access modifiers, C07 view purity
-(C52 evaluation order and C10 conditions live in the same module, see below).
+"""Language-level checks (family "lang"): C03 resource linearity, C50 access modifiers, C52 evaluation order,
+C10 pre-/post-conditions, C07 view purity.
 
 Pattern (DESIGN 2.1, E4 table conformance): the TLA+ specification in spec/lang decides every case
 (TLC explores / evaluates it), a Go driver (harness/cmd/lang) renders the same cases to Cadence and
@@ -7,7 +7,8 @@ runs the real parser + checker (+ both execution engines), python only compares 
 import json, os, random, re, itertools, copy, threading
 from vlib.core import Infra, read_ndjson, write_ndjson
 
-LEVEL = {"C03": "model_checking", "C50": "model_checking", "C07": "model_checking"}
+LEVEL = {"C03": "model_checking", "C50": "model_checking", "C52": "model_checking", "C10": "model_checking",
+         "C07": "model_checking"}
 META = {}
 
 # =====================================================================================
@@ -980,7 +981,7 @@ def _eo_forms(t, acc):
 
 def check_C52(ctx):
     binary = ctx.build("langeo")
-    nchunks = 4 if ctx.quick else 12
+    nchunks = 2 if ctx.quick else 12
     rows = _eo_tables(ctx, nchunks)
     # distinct cases (sampled terms may repeat across chunks); ids are per chunk-universe, renumber
     uniq = {}
